@@ -1,4 +1,183 @@
+(* C11 — property theorems only.  Each is closed by [exact] of a lemma of Proofs.v / Invariants.v
+   and followed by Print Assumptions.
+
+   The theorems speak about the model of Model.v for ALL configurations (any number of classes and
+   objects, any trait tables, chains of any length below the 100-step limit), all values and all
+   histories.  Two hypotheses exclude the two recorded findings, whose witnesses are proved below:
+     same_prefix          (one __prefix__ for all classes; otherwise a '*'-style hop after the first
+                           is named with the assigning object's prefix when writing)
+     no_deferring_locals  (no deferring attribute on the chain holds a local value; otherwise a
+                           DelegatesTo assignment is stored past it). *)
 From Coq Require Import ZArith List Bool Arith.
-From TV Require Import Common.Harness C11.Model C11.Law.
+From TV Require Import Common.Harness C11.Model C11.Law C11.Proofs C11.Invariants.
 Import ListNotations.
-Example placeholder : 1 = 1. Proof. reflexivity. Qed.
+Open Scope Z_scope.
+
+Theorem attr_name_table :
+  forall class_prefix p n : name,
+    attr_name RSame class_prefix n = n /\
+    attr_name (RExplicit p) class_prefix n = p /\
+    attr_name (RPrefix p) class_prefix n = p ++ n /\
+    attr_name RClass class_prefix n = class_prefix ++ n.
+Proof. exact attr_name_rules. Qed.
+Print Assumptions attr_name_table.
+
+(* the chain walk is total (structural recursion on the 100-step budget), returns a node that does
+   not defer again, and its answer does not depend on budget left over *)
+Theorem chain_terminates_or_errors :
+  forall st origin f cur d r dn,
+    (forall x, walk f st origin cur d r dn = Ok x -> forall k, walk (f + k) st origin cur d r dn = Ok x) /\
+    (forall p t tr, walk f st origin cur d r dn = Ok (p, t, tr) ->
+       (match tr with Deleg _ _ _ => False | _ => True end) /\
+       forall d' r' m', find_trait st p t <> Some (Deleg d' r' m')).
+Proof.
+  intros st origin f cur d r dn. split.
+  - intros x H. exact (walk_fuel_mono st origin f cur d r dn x H).
+  - intros p t tr H. split.
+    + exact (walk_terminal st origin f cur d r dn p t tr H).
+    + exact (walk_result st origin f cur d r dn p t tr H).
+Qed.
+Print Assumptions chain_terminates_or_errors.
+
+(* a deferring attribute reads as the attribute at the end of its chain: the very node an assignment
+   through it addresses *)
+Theorem delegatesto_reads_target :
+  forall st origin, links_are_links st -> same_prefix st -> no_deferring_locals st ->
+  forall f cur d r m dn p t tr,
+    find_trait st cur dn = Some (Deleg d r m) ->
+    walk f st origin cur d r dn = Ok (p, t, tr) ->
+    (match find_trait st p t with Some (Deleg _ _ _) => False | _ => True end) /\
+    forall g, read (f + S g) st cur dn = read (S g) st p t.
+Proof. exact walk_read_agree. Qed.
+Print Assumptions delegatesto_reads_target.
+
+(* DelegatesTo: one dict store, at the end of the chain, in the delegate - and it is read back *)
+Theorem delegatesto_writes_delegate_only :
+  forall st o n d r p t k dflt v w,
+  links_are_links st -> same_prefix st -> no_deferring_locals st ->
+  find_trait st o n = Some (Deleg d r true) ->
+  walk 100 st o o d r n = Ok (p, t, Normal k dflt) ->
+  validate k v = Some w -> (p < length (objs st))%nat ->
+  let st' := fst (fst (set_attr st o n v)) in
+  st' = dict_set st p t w /\ forall g, read (100 + S g) st' o n = Ok w.
+Proof. exact delegatesto_write_then_read. Qed.
+Print Assumptions delegatesto_writes_delegate_only.
+
+(* PrototypedFrom: the assignment is validated by the trait at the end of the chain and stored in the
+   deferring object only; it then reads as the local value *)
+Theorem prototyped_reads_until_local :
+  forall st o n d r p t tr v w old,
+  find_trait st o n = Some (Deleg d r false) ->
+  walk 100 st o o d r n = Ok (p, t, tr) ->
+  checked_by tr v = Some w -> rd st o n = Ok old -> (o < length (objs st))%nat ->
+  fst (fst (set_attr st o n v)) = ltab_del (dict_set st o n w) (o, n) /\
+  snd (fst (set_attr st o n v)) = Done /\
+  forall g, read (S g) (fst (fst (set_attr st o n v))) o n = Ok w.
+Proof.
+  intros st o n d r p t tr v w old Htr Hw Hc Hrd Ho.
+  destruct (prototyped_store st o n d r p t tr v w old Htr Hw Hc Hrd) as [H1 H2].
+  split; [exact H1|]. split; [exact H2|].
+  intros g. rewrite H1. exact (read_after_local_store st o n w g Ho).
+Qed.
+Print Assumptions prototyped_reads_until_local.
+
+Theorem prototyped_local_independent :
+  forall st o n w, dict_get st o n = Some w ->
+  forall p t v g, node_eqb (o, n) (p, t) = false -> read (S g) (dict_set st p t v) o n = Ok w.
+Proof. exact Proofs.prototyped_local_independent. Qed.
+Print Assumptions prototyped_local_independent.
+
+Theorem delete_restores_link :
+  forall st o n d r p t tr old,
+  (o < length (objs st))%nat ->
+  find_trait st o n = Some (Deleg d r false) ->
+  walk 100 st o o d r n = Ok (p, t, tr) ->
+  dict_get st o n = Some old ->
+  let st' := fst (fst (del_attr st o n)) in
+  st' = ltab_add (dict_del st o n) (o, n) /\
+  dict_get st' o n = None /\ has_node (o, n) (ltab st') = true /\
+  snd (fst (del_attr st o n)) = Done.
+Proof. exact Proofs.delete_restores_link. Qed.
+Print Assumptions delete_restores_link.
+
+Theorem invalid_assignment_rejected_by_target_trait :
+  forall st o n d r m p t tr v,
+  find_trait st o n = Some (Deleg d r m) ->
+  walk 100 st o o d r n = Ok (p, t, tr) ->
+  checked_by tr v = None ->
+  set_attr st o n v = (st, Raised TraitError, []).
+Proof. exact invalid_rejected. Qed.
+Print Assumptions invalid_assignment_rejected_by_target_trait.
+
+(* forwarding: after ANY history from a well-formed initial pool, the forwarder of a deferring
+   attribute is attached iff it has no local value (DelegatesTo: always); a change notifies exactly
+   the attached forwarders that currently point at the changed attribute, with the new value *)
+Theorem forward_iff_linked :
+  forall cs os ops,
+  wf_classes cs ->
+  (forall o n, deferring (init_state cs os) o n -> dict_get (init_state cs os) o n = None) ->
+  Forall (fun o => match o with Set_ x _ _ | Del x _ => (x < length os)%nat end) ops ->
+  let st := final (init_state cs os) ops in
+  (forall o n d r, find_trait st o n = Some (Deleg d r true) -> dict_get st o n = None) /\
+  (forall o n, (o < length (objs st))%nat ->
+     (has_node (o, n) (ltab st) = true <-> (deferring st o n /\ dict_get st o n = None))) /\
+  (forall f x w e, In e (change_at f st x w) ->
+     (fst e = x \/ has_node (fst e) (ltab st) = true) /\ snd e = w) /\
+  (forall f x y w, In y (ltab st) -> depends_on st y x = true ->
+     In (fst y, snd y, w) (change_at (S (S f)) st x w)).
+Proof.
+  intros cs os ops Hwf Hnl Hr st.
+  assert (inv st) as [Hm Hl].
+  { apply history_inv; [apply init_inv; [constructor|exact Hwf|exact Hnl]|exact Hr]. }
+  split; [exact Hm|]. split; [exact Hl|]. split.
+  - intros f x w e Hin. split; [exact (notified_only_if_attached st f x w e Hin)|exact (notified_with_new_value st f x w e Hin)].
+  - intros f x y w Hy Hd. exact (attached_dependent_notified st f x y w Hy Hd).
+Qed.
+Print Assumptions forward_iff_linked.
+
+(* ---------- the two findings: the model, which follows the code, violates the law ---------- *)
+Definition X := [0%nat]. Definition Y := [1%nat]. Definition A := [2%nat]. Definition B := [3%nat].
+Definition R := [4%nat]. Definition PARENT := [20%nat].
+Definition par : cls := mkC [12%nat] [(PARENT, Link); (X, Normal KInt (VInt 1)); ([12%nat; 3%nat], Normal KInt (VInt 5));
+                                       ([11%nat; 3%nat], Normal KRange (VInt 6)); (R, Normal KRange (VInt 7))].
+Definition mid : cls := mkC [12%nat] [(PARENT, Link); (B, Deleg PARENT RClass true); (R, Deleg PARENT RSame false)].
+Definition top : cls := mkC [11%nat] [(PARENT, Link); (A, Deleg PARENT (RExplicit B) true); (Y, Deleg PARENT (RExplicit R) true)].
+Definition pool : list obj := [mkO 0 []; mkO 1 [(PARENT, VObj 0%nat)]; mkO 2 [(PARENT, VObj 1%nat)]].
+Definition st0 := init_state [par; mid; top] pool.
+
+(* '*' style at the second hop, different class prefixes: c.a = 44 is stored in p.pre_b, c.a still reads p.q_b *)
+(* the pool below does not meet [same_prefix] ... *)
+Theorem class_prefix_at_later_hop_refuted : ~ same_prefix st0.
+Proof. intros Hs. specialize (Hs 0%nat 2%nat). vm_compute in Hs. discriminate. Qed.
+Print Assumptions class_prefix_at_later_hop_refuted.
+
+(* ... and there the conclusion of delegatesto_writes_delegate_only fails *)
+Theorem class_prefix_at_later_hop_witness :
+  let st1 := fst (fst (set_attr st0 2%nat A (VInt 44))) in
+  rd st0 2%nat A = Ok (VInt 5) /\ rd st1 2%nat A = Ok (VInt 5) /\ rd st1 0%nat [11%nat; 3%nat] = Ok (VInt 44).
+Proof. vm_compute. repeat split; reflexivity. Qed.
+Print Assumptions class_prefix_at_later_hop_witness.
+
+(* DelegatesTo over a PrototypedFrom attribute with a local value: c.y = 12 lands in p.r, c.y reads 30 *)
+Theorem through_local_witness :
+  let st1 := fst (fst (set_attr st0 1%nat R (VInt 30))) in
+  let st2 := fst (fst (set_attr st1 2%nat Y (VInt 12))) in
+  rd st1 2%nat Y = Ok (VInt 30) /\ rd st2 2%nat Y = Ok (VInt 30) /\ rd st2 0%nat R = Ok (VInt 12).
+Proof. vm_compute. repeat split; reflexivity. Qed.
+Print Assumptions through_local_witness.
+
+(* Non-vacuity: a pool meeting all hypotheses of the theorems above (chain of two deferrals, the '*'
+   style included), with a history that stores through the chain, breaks and restores a link, is
+   rejected by the target's trait, and forwards notifications up the chain. *)
+Definition mid' : cls := mkC [12%nat] [(PARENT, Link); (B, Deleg PARENT RClass true); (R, Deleg PARENT RSame false)].
+Definition top' : cls := mkC [12%nat] [(PARENT, Link); (A, Deleg PARENT (RExplicit B) true); (Y, Deleg PARENT (RExplicit R) false)].
+Definition st0' := init_state [par; mid'; top'] pool.
+Example history_nontrivial :
+  let h := [Set_ 2 A (VInt 44); Set_ 2 Y (VInt 20); Set_ 0 R (VInt 9); Del 2 Y; Set_ 0 R (VInt 10);
+            Set_ 2 Y (VInt 99); Set_ 1 R VBad]%nat in
+  let tr := run st0' h in
+  map (fun p => ob_out (snd p)) tr = [Done; Done; Done; Done; Done; Raised TraitError; Raised TraitError]
+  /\ map (fun p => length (ob_events (snd p))) tr = [3; 1; 2; 1; 3; 0; 0]%nat
+  /\ law_hist (mkG (classes st0') (map o_cls (objs st0'))) 0 [] (mkObs Done [] (snapshot st0') (locals st0')) tr = []
+  /\ walk 100 st0' 2%nat 2%nat PARENT (RExplicit B) A = Ok (0%nat, [12%nat; 3%nat], Normal KInt (VInt 5)).
+Proof. vm_compute. repeat split; reflexivity. Qed.
